@@ -26,7 +26,7 @@ def run(ctx):
         "consistent_vectors": int(st.get("consistent", 0)),
         "space": "feature subsets of {MMX,SSE2,SSE3,SSSE3,SSE4.1,SSE4.2,XSAVE,OSXSAVE,AVX,AVX2,XCR0.XMM,XCR0.YMM} (all 4096) x "
                  + ("vendor Intel x max basic leaf {13,4}" if tier == "quick" else "vendor {Intel,AMD,other} x max basic leaf {13,4,1,0} x ORC_CODE {none,-avx2,-sse2}")
-                 + " x override {unset, ORC_TARGET=v, ORC_BACKEND=v : v in mmx,sse,avx,c,neon,bogus}",
+                 + " x override {unset, ORC_TARGET=v, ORC_BACKEND=v : v in mmx,sse,avx,c,neon,bogus,(empty string)}",
         "model": "mmx<=>MMX; sse<=>SSE2; avx<=>AVX&AVX2(leaf>=7)&XSAVE&OSXSAVE&XCR0.XMM&XCR0.YMM; default = most capable executable; "
                  "flags subset of presented features; safety obligations on all vectors, selection obligations on architecturally consistent vectors",
         "exhaustive": not res.incomplete,
